@@ -120,13 +120,25 @@ def respLoop (c : Sig) (publics : List Pt) (x : Nat) (strict : Bool) :
       else if s ≥ ell then none
       else respLoop c publics x strict rest ((acc + s) % ell)
 
+/-- is there a non-nil response for signer `i`? -/
+def hasResponse (responses : List (Int × Option Nat)) (i : Nat) : Bool :=
+  match responses.lookup (Int.ofNat i) with
+  | some (some _) => true
+  | _ => false
+
+/-- first loop of `AggregateResponse`: every mask bit is inside the key vector and has a response -/
+def responsesPresent (mask : Nat) (publics : List Pt) (responses : List (Int × Option Nat)) : Bool :=
+  (keys mask).all (fun i => decide (i < publics.length) && hasResponse responses i)
+
+/-- loop of `VerifyResponse`: every mask bit is inside the key vector -/
+def keysInVector (mask : Nat) (publics : List Pt) : Bool :=
+  (keys mask).all (fun k => decide (k < publics.length))
+
 /-- `AggregateResponse`; `x` is the value of `c.Challenge(publics, message)` when that succeeds -/
 def aggregateResponse (c : Sig) (publics : List Pt) (responses : List (Int × Option Nat))
     (x : Nat) (strict : Bool) : Option Sig :=
-  let ks := keys c.mask
-  if !(ks.all (fun i => decide (i < publics.length) &&
-        (match responses.lookup (Int.ofNat i) with | some (some _) => true | _ => false))) then none
-  else if ks.length ≠ responses.length then none
+  if !(responsesPresent c.mask publics responses) then none
+  else if (keys c.mask).length ≠ responses.length then none
   else if !(challengeOk c publics) then none
   else
     match respLoop c publics x strict responses 0 with
@@ -138,9 +150,8 @@ def verifyResponse (c : Sig) (publics : List Pt) (signer : Int) (s : Option Nat)
   match s with
   | none => false
   | some s =>
-    let ks := keys c.mask
-    if !(ks.all (fun k => decide (k < publics.length))) then false
-    else if !(ks.any (fun k => Int.ofNat k == signer)) then false
+    if !(keysInVector c.mask publics) then false
+    else if !((keys c.mask).any (fun k => Int.ofNat k == signer)) then false
     else
       match c.commitments.lookup signer with
       | none => false
